@@ -611,6 +611,16 @@ func GenRun(verifSeed uint64, run int, tier string, profiles []string) *RunSpec 
 					st = genRenderStep(wl, l, nf)
 				}
 			}
+			switch st.Op {
+			case "and", "or", "xor", "not", "div", "settle", "stroke", "offset", "flatten", "dash":
+				if !st.AsPaths && wl.Bool(0.15) {
+					st.Repeat = true
+				}
+			case "richtext":
+				if wl.Bool(0.3) {
+					st.Repeat = true
+				}
+			}
 			if st.Op == "render" && st.FailAt == 0 && wl.Bool(0.3) {
 				// draw now, render later: other calls of this task (and other tasks) come in between
 				d, rr := genDrawThenRender(wl, l, nf)
